@@ -573,7 +573,7 @@ class World:
                 c.lost = True
 
     # ---- running ---------------------------------------------------------------------------
-    def run(self, program, max_steps=3_000_000, wrap=True, stuck_after=200_000, extend=None):
+    def run(self, program, max_steps=3_000_000, wrap=True, stuck_after=200_000, extend=None, cpu_seconds=None):
         """program: async def program(mpc, pid).  wrap=True: real start() before, real shutdown() after.
         extend: when the step budget is exhausted under a biased policy, continue the *same* world under the plain uniform policy with ten times the
         budget before giving the status STEP-LIMIT (a schedule that changes policy is still a fair schedule; byte-dribbling schedules legitimately need
@@ -603,7 +603,27 @@ class World:
                 return r
             return await program(mpc, pid)
         self.tasks = [self.ctx[i].run(lambda i=i: self.loops[i].create_task(main(i))) for i in range(self.m)]
-        self._drive(max_steps, stuck_after)
+        if cpu_seconds is None:
+            self._drive(max_steps, stuck_after)
+            return self
+        # CPU budget (process CPU time, so machine load does not matter): for workloads whose worlds take well under a second on the unchanged tree, a world
+        # that burns cpu_seconds (a livelock exchanging messages forever, 2**garbage, ...) ends with status CPU-LIMIT, like STEP-LIMIT a "did not complete"
+        import signal
+
+        class _CpuBudget(BaseException):
+            pass
+
+        def _alarm(signum, frame):
+            raise _CpuBudget()
+        old_h = signal.signal(signal.SIGVTALRM, _alarm)
+        signal.setitimer(signal.ITIMER_VIRTUAL, cpu_seconds)
+        try:
+            self._drive(max_steps, stuck_after)
+        except _CpuBudget:
+            self.status = 'CPU-LIMIT'
+        finally:
+            signal.setitimer(signal.ITIMER_VIRTUAL, 0)
+            signal.signal(signal.SIGVTALRM, old_h)
         return self
 
     def _begin_observed_session(self):
